@@ -23,6 +23,7 @@ import ipaddress as _stdip
 import itertools as _itertools
 import random as _random
 
+import common
 from common import Case, W, rand_value, rand_block, harvest_literals, plist, errname
 import netaddr
 from netaddr import IPAddress, IPNetwork, IPRange, cidr_merge, iprange_to_cidrs, iter_unique_ips, glob_to_cidrs
@@ -721,9 +722,13 @@ def impl(c):
             ver = a[1]
             return _show_blocks(iprange_to_cidrs(_obj(_ep_item(ver, a[2])), _obj(_ep_item(ver, a[3]))))
         if a[0] == 'rcidrs':
-            return _show_blocks(_obj(('R', a[1], a[2], a[3])).cidrs())
+            # asked twice, mutating the first answer's blocks in between (shared caches show up)
+            return _show_blocks(common.twice_cidrs(_obj(('R', a[1], a[2], a[3]))))
         if a[0] == 'glob':
-            return _show_blocks(glob_to_cidrs(a[1]))
+            r1 = _show_blocks(glob_to_cidrs(a[1]))
+            # the same interval through an IPGlob object that was re-pointed with the `.glob` setter
+            r2 = _show_blocks(common.twice_cidrs(common.make_glob(a[1])))
+            return r1 if r1 == r2 else r1 + ' BUT IPGlob(...).cidrs() = ' + r2
         if a[0] == 'uniq':
             ips = list(_itertools.islice(iter_unique_ips(*[_obj(it) for it in a[1]]), _CAP + 1))   # bounded
             return plist(['%d:%d' % (ip.version, ip.value) for ip in ips[:_CAP]] + ['...'] * (len(ips) > _CAP))
